@@ -42,6 +42,17 @@ func init() {
 		ctx.objs[c.str("h")] = h
 		sm3Proj(ev, h)
 	})
+	// sm3.inject {h, v: 16 half-words, x: buffered bytes, len}: place the object in an arbitrary state
+	register("sm3.inject", func(ctx *Ctx, c Cmd, ev Ev) {
+		h := ctx.objs[c.str("h")].(hash.Hash)
+		v := c.ints("v")
+		var hh [8]uint32
+		for i := range hh {
+			hh[i] = uint32(v[2*i])<<16 | uint32(v[2*i+1])
+		}
+		sm3.VerifSetState(h, hh, c.bytes("x"), uint64(c.num("len")))
+		sm3Proj(ev, h)
+	})
 	register("sm3.reset", func(ctx *Ctx, c Cmd, ev Ev) {
 		h := ctx.objs[c.str("h")].(hash.Hash)
 		h.Reset()
